@@ -546,6 +546,10 @@ func (o *operation) handle() {
 		// Go ahead and process first request message
 		switch err := o.readRequestMessage(nil, o.request.Body, &reqMsg); {
 		case errors.Is(err, io.EOF):
+			if noMsgErr := o.missingRequestMessage(err); noMsgErr != nil {
+				o.reportError(noMsgErr)
+				return
+			}
 			// okay for the first message: means empty message data
 			if reqMsg.buf == nil {
 				// (the stream of an enveloped client ended before any envelope)
@@ -627,6 +631,19 @@ func (o *operation) handle() {
 	}
 
 	o.methodConf.handler.ServeHTTP(o.writer, o.request)
+}
+
+// missingRequestMessage returns a non-nil error if err is the end of an enveloped
+// client's request stream before its first message, the method takes exactly one
+// request message, and the target's request body has no envelopes. Such a body is
+// always one message, so the backend would be handed an empty message that the
+// client never sent.
+func (o *operation) missingRequestMessage(err error) error {
+	if !errors.Is(err, io.EOF) || o.clientEnveloper == nil || o.serverEnveloper != nil ||
+		o.methodConf.streamType&connect.StreamTypeClient != 0 {
+		return nil
+	}
+	return malformedRequestError(errors.New("request stream ended without a message"))
 }
 
 func (o *operation) resolveMethod(transcoder *Transcoder) error {
@@ -926,6 +943,10 @@ func (r *envelopingReader) prepareNext() error {
 		var envBytes envelopeBytes
 		_, err := io.ReadFull(r.r, envBytes[:])
 		if err != nil {
+			if noMsgErr := r.rw.op.missingRequestMessage(err); noMsgErr != nil && r.current == nil {
+				r.rw.reportReadError(noMsgErr)
+				return noMsgErr
+			}
 			return err
 		}
 		env, err = r.rw.op.clientEnveloper.decodeEnvelope(envBytes)
@@ -1009,6 +1030,10 @@ func (r *transformingReader) Read(data []byte) (n int, err error) {
 				(r.rw.op.clientReqNeedsPrep || r.rw.op.clientEnveloper == nil) {
 				r.msg.markReady()
 			} else {
+				if noMsgErr := r.rw.op.missingRequestMessage(err); noMsgErr != nil && !r.consumedFirst {
+					err = noMsgErr
+					r.rw.reportReadError(err)
+				}
 				r.err = err
 				return 0, err
 			}
